@@ -249,16 +249,102 @@ func c09TablesOp(s *c09Tables, f []string) string {
 	return "bad-op"
 }
 
+var c09Hist []string
+var c09Self uint64 = 1
+
+// c09DumpOf prints the table an op (by its first letter) works on.
+func c09DumpOf(s *c09Tables, op string) string {
+	switch op[0] {
+	case 'd':
+		return c09DDump(s.d)
+	case 'f':
+		return c09FDump(s.f)
+	}
+	return c09ADump(s.a)
+}
+
 func c09Run(line string) string {
 	f := fields(line)
 	if f[0] == "reset" {
-		c09S = c09New(c09U(f[1]))
+		c09Self = c09U(f[1])
+		c09S = c09New(c09Self)
+		c09Hist = nil
 		return "ok"
 	}
 	if c09S == nil {
-		c09S = c09New(1)
+		c09S = c09New(c09Self)
 	}
+	if f[0] == "race" {
+		hist := c09Hist
+		ops := c08RaceOps(line)
+		out := c08Race(line, ops[0][0] == 'a', func() (func(string), func() string, func()) {
+			s := c09New(c09Self)
+			for _, h := range hist {
+				c09Do(s, fields(h))
+			}
+			return func(op string) { c09Do(s, fields(op)) }, func() string { return c09DumpOf(s, ops[0]) }, func() { c09S = s }
+		})
+		c09Hist = append(c09Hist, ops...)
+		return out
+	}
+	c09Hist = append(c09Hist, line)
 	return c09TablesOp(c09S, f)
+}
+
+// c09Do executes an op without printing.
+func c09Do(s *c09Tables, f []string) {
+	hours := func(x string) time.Duration { return time.Duration(c09U(x)) * time.Hour }
+	switch f[0] {
+	case "dadd":
+		s.d.AddRoute(&routing.DomainRoute{Pattern: c09Str(f[1]), IsWildcard: f[2] == "1", BaseDomain: c09Str(f[3]),
+			NextHop: c09ID(c09U(f[4])), OriginAgent: c09ID(c09U(f[5])), Metric: uint16(c09U(f[6])), Sequence: c09U(f[7]), Path: c09Path(f[8])})
+	case "dadv":
+		w, base := routing.ParseDomainPattern(c09Str(f[1]))
+		s.d.AddRoute(&routing.DomainRoute{Pattern: c09Str(f[1]), IsWildcard: w, BaseDomain: base,
+			NextHop: c09ID(c09U(f[2])), OriginAgent: c09ID(c09U(f[3])), Metric: uint16(c09U(f[4])), Sequence: c09U(f[5]), Path: c09Path(f[6])})
+	case "drm":
+		s.d.RemoveRoute(c09Str(f[1]), c09ID(c09U(f[2])))
+	case "ddisc":
+		s.d.RemoveRoutesFromPeer(c09ID(c09U(f[1])))
+	case "dage":
+		routing.C09AgeDomain(s.d, hours(f[1]))
+	case "dclean":
+		s.d.CleanupStaleRoutes(hours(f[1]) + 30*time.Minute)
+	case "dclear":
+		s.d.Clear()
+	case "fadd":
+		s.f.AddRoute(&routing.ForwardRoute{Key: c09Str(f[1]), Target: c09Str(f[2]),
+			NextHop: c09ID(c09U(f[3])), OriginAgent: c09ID(c09U(f[4])), Metric: uint16(c09U(f[5])), Sequence: c09U(f[6]), Path: c09Path(f[7])})
+	case "frm":
+		s.f.RemoveRoute(c09Str(f[1]), c09ID(c09U(f[2])))
+	case "fdisc":
+		s.f.RemoveRoutesFromPeer(c09ID(c09U(f[1])))
+	case "fage":
+		routing.C09AgeForward(s.f, hours(f[1]))
+	case "fclean":
+		s.f.CleanupStaleRoutes(hours(f[1]) + 30*time.Minute)
+	case "fclear":
+		s.f.Clear()
+	case "aadd":
+		s.a.AddRoute(&routing.AgentRoute{AgentID: c09ID(c09U(f[1])),
+			NextHop: c09ID(c09U(f[2])), OriginAgent: c09ID(c09U(f[3])), Metric: uint16(c09U(f[4])), Sequence: c09U(f[5]), Path: c09Path(f[6])})
+	case "arm":
+		s.a.RemoveRoute(c09ID(c09U(f[1])), c09ID(c09U(f[2])))
+	case "adisc":
+		s.a.RemoveRoutesFromPeer(c09ID(c09U(f[1])))
+	case "aage":
+		routing.C09AgeAgent(s.a, hours(f[1]))
+	case "aclean":
+		s.a.CleanupStaleRoutes(hours(f[1]) + 30*time.Minute)
+	case "aclear":
+		s.a.Clear()
+	case "dlook":
+		s.d.Lookup(c09Str(f[1]))
+	case "flook":
+		s.f.Lookup(c09Str(f[1]))
+	case "alook":
+		s.a.Lookup(c09ID(c09U(f[1])))
+	}
 }
 
 // ---------------------------------------------------------------- generator
@@ -523,8 +609,41 @@ func c09Mix(seed int64) int64 {
 	return int64(z ^ (z >> 31))
 }
 
+// c09GenRace: the concurrency stress op on the domain / forward / agent tables (see c08GenRace).
+func c09GenRace(w *bufio.Writer, r *rng) {
+	fmt.Fprintln(w, "reset 1")
+	hx := func(s string) string { return hexTok([]byte(s)) }
+	o := 2 + r.intn(3)
+	switch r.intn(6) {
+	case 0:
+		fmt.Fprintf(w, "race %d | dadv %s %d %d %d 1 %d\n", r.pick(2, 4, 8), hx("*.Race.test"), 2+r.intn(3), o, 1+r.intn(5), o)
+		fmt.Fprintf(w, "dlook %s\ndrm %s %d\ndlook %s\ndhas %s %d\ndsize\n", hx("a.race.TEST"), hx("*.race.test"), o, hx("a.race.TEST"), hx("*.race.test"), o)
+	case 1:
+		fmt.Fprintf(w, "race 1 | dadv %s 2 %d 2 1 2.%d | dadv %s 3 %d 3 1 3.%d | dadv %s 4 %d 4 1 4.%d\n", hx("race.test"), o, o, hx("RACE.test"), o, o, hx("Race.Test"), o, o)
+		fmt.Fprintf(w, "dlook %s\ndrm %s %d\ndlook %s\n", hx("race.test"), hx("race.test"), o, hx("race.test"))
+	case 2:
+		fmt.Fprintf(w, "race %d | fadd %s %s %d %d %d 1 %d\n", r.pick(2, 4, 8), hx("rk"), hx("h:1"), 2+r.intn(3), o, 1+r.intn(5), o)
+		fmt.Fprintf(w, "flook %s\nfrm %s %d\nflook %s\nfhas %s %d\nfsize\n", hx("rk"), hx("rk"), o, hx("rk"), hx("rk"), o)
+	case 3:
+		fmt.Fprintf(w, "race %d | aadd 7 2 %d %d 1 2.%d\n", r.pick(2, 4, 8), o, 1+r.intn(5), o)
+		fmt.Fprintf(w, "aroutes 7\narm 7 %d\nalook 7\nasize\n", o)
+	case 4:
+		fmt.Fprintf(w, "race 2 | fadd %s %s 2 2 1 1 2 | fadd %s %s 3 3 2 1 3 | fadd %s %s 4 4 3 1 4\nflook %s\n", hx("rk"), hx("t"), hx("rk"), hx("t"), hx("rk"), hx("t"), hx("rk"))
+	default: // conflicting ops: several admissible outcomes, the case ends here
+		fmt.Fprintf(w, "dadv %s 2 %d 3 1 %d\n", hx("*.race.test"), o, o)
+		fmt.Fprintf(w, "race 2 | dadv %s 3 %d 1 2 %d | drm %s %d\n", hx("*.RACE.test"), o, o, hx("*.race.test"), o)
+	}
+}
+
 func c09Gen(w *bufio.Writer, seed int64, tier string) {
 	r := newRng(c09Mix(seed))
+	races := 8
+	if tier == "thorough" || seed >= 1000 {
+		races = 60
+	}
+	for c := 0; c < races; c++ {
+		c09GenRace(w, r)
+	}
 	cases, nops := 180, 50
 	if tier == "thorough" {
 		cases, nops = 5000, 60
